@@ -556,7 +556,7 @@ package tacquito
 // from the configured secret, octet for octet).
 //@ func newCrypter(secret []byte, c net.Conn, proxy bool) (res *crypter)
 //@   ensures res != nil && fresh(res)
-//@   ensures res.Conn == c && res.proxy == proxy && res.Reader != nil
+//@   ensures res.Conn == c && res.proxy == proxy && !res.stripped && res.Reader != nil
 //@   ensures[C03] res.secret == secret
 
 //@ func (c *crypter) write(p *Packet) (n int, err error)
@@ -656,8 +656,16 @@ package tacquito
 //@ func (c *crypter) read() (res *Packet, err error)
 //@   ghostinc reads
 //@   ghostset armed 0
-//@   requires c != nil && c.Conn != nil && c.Reader != nil && !c.proxy
+//@   requires c != nil && c.Conn != nil && c.Reader != nil
 //@   taints[C18] c.secret 4
+//@   modifies c.stripped, ghost.pktStart
+//@   after Reader.ReadBytes : ghost.pktStart = ghost.inPos
+//@   before[C17] Conn.SetReadDeadline : false
+//@   ensures (c.proxy && !old(c.stripped) && err == nil) ==> (c.stripped && ghost.pktStart > old(ghost.inPos) && instream(ghost.pktStart - 1) == 0)
+//@   ensures (c.proxy && !old(c.stripped) && err == nil) ==> (forall j int :: {instream(j)} (old(ghost.inPos) <= j && j < ghost.pktStart - 1) ==> instream(j) != 0)
+//@   ensures (c.proxy && !old(c.stripped)) ==> (old(ghost.inPos) <= ghost.pktStart && ghost.pktStart <= ghost.inPos)
+//@   ensures c.stripped == old(c.stripped) || (c.proxy && !old(c.stripped) && c.stripped)
+//@   ensures (err == nil && c.proxy) ==> c.stripped
 //@   ensures[C18] untainted(err)
 //@   requires[C17] ghost.armed == 1 || ghost.dead == 1
 //@   requires[C05] ghost.sync == 1
@@ -665,18 +673,18 @@ package tacquito
 //@   ensures[C17] ghost.armed == 0
 //@   ensures[C05] err == nil ==> ghost.sync == 1
 //@   ensures[C05,C07] err == nil ==> res != nil && res.Header != nil && valid.Header(*res.Header)
-//@   ensures[C05] let p0 = old(ghost.inPos) in let L = instream(p0+8)*16777216 + instream(p0+9)*65536 + instream(p0+10)*256 + instream(p0+11) in
+//@   ensures[C05] let p0 = ((c.proxy && !old(c.stripped)) ? ghost.pktStart : old(ghost.inPos)) in let L = instream(p0+8)*16777216 + instream(p0+9)*65536 + instream(p0+10)*256 + instream(p0+11) in
 //@        (err == nil ==> (L <= 65536 && ghost.inPos == p0 + 12 + L && len(res.Body) == L && res.Header.Length == L))
-//@   ensures[C04,C05] let p0 = old(ghost.inPos) in let L = instream(p0+8)*16777216 + instream(p0+9)*65536 + instream(p0+10)*256 + instream(p0+11) in
+//@   ensures[C04,C05] let p0 = ((c.proxy && !old(c.stripped)) ? ghost.pktStart : old(ghost.inPos)) in let L = instream(p0+8)*16777216 + instream(p0+9)*65536 + instream(p0+10)*256 + instream(p0+11) in
 //@        (L > 65536 ==> (err != nil && ghost.inPos <= p0 + 12))
 //@   ensures[C04,C05] alloc() <= 65548
-//@   ensures[C05] let p0 = old(ghost.inPos) in (err == nil ==>
+//@   ensures[C05] let p0 = ((c.proxy && !old(c.stripped)) ? ghost.pktStart : old(ghost.inPos)) in (err == nil ==>
 //@        (res.Header.Version.MajorVersion == instream(p0) div 16 && res.Header.Version.MinorVersion == instream(p0) mod 16
 //@         && res.Header.Type == instream(p0+1) && res.Header.SeqNo == instream(p0+2)
 //@         && res.Header.SessionID == instream(p0+4)*16777216 + instream(p0+5)*65536 + instream(p0+6)*256 + instream(p0+7)))
-//@   ensures[C03,C05] let p0 = old(ghost.inPos) in ((err == nil && res.Header.Flags mod 2 == 1) ==>
+//@   ensures[C03,C05] let p0 = ((c.proxy && !old(c.stripped)) ? ghost.pktStart : old(ghost.inPos)) in ((err == nil && res.Header.Flags mod 2 == 1) ==>
 //@        (forall i int :: {res.Body[i]} 0 <= i && i < len(res.Body) ==> res.Body[i] == instream(p0 + 12 + i)))
-//@   ensures[C03,C05] let p0 = old(ghost.inPos) in ((err == nil && res.Header.Flags mod 2 == 0) ==>
+//@   ensures[C03,C05] let p0 = ((c.proxy && !old(c.stripped)) ? ghost.pktStart : old(ghost.inPos)) in ((err == nil && res.Header.Flags mod 2 == 0) ==>
 //@        (forall i int :: {res.Body[i]} 0 <= i && i < len(res.Body) ==> res.Body[i] == xor8(instream(p0 + 12 + i), padAt(*res.Header, c.secret, i))))
 //@   ensures[C07,C19] err == nil ==> ghost.nwrites == old(ghost.nwrites)
 //@   ensures[C19] err == nil ==> (res.Header.Flags mod 2 == 1 || !allOverrun(res.Header.Type, res.Body))
@@ -765,10 +773,10 @@ package tacquito
 //@   before[C08,C09] sessions.update : arg0 == sessionProvider && arg1.SessionID == req.Header.SessionID && arg2 == resp.next
 //@   before[C08,C09] sessions.delete : arg0 == sessionProvider && arg1 == req.Header.SessionID
 //@   requires s != nil && s.loggerProvider != nil && ctx != nil && h != nil
-//@   requires c != nil && c.Conn != nil && c.Reader != nil && !c.proxy
+//@   requires c != nil && c.Conn != nil && c.Reader != nil
 //@   taints[C18] c.secret 4
 //@   requires[C05] ghost.sync == 1
-//@   modifies ghost.inPos, ghost.nwrites, ghost.written, ghost.md5acc, ghost.gauge, ghost.armed, ghost.dead, ghost.reads, ghost.handled, ghost.replies, ghost.closed, ghost.sync, ghost.hcalls, ghost.authorStatus, ghost.authenPass, ghost.acctStatus, ghost.sinkWrites, ghost.sinkAtReply, ghost.scopeArg, ghost.cmpOK, ghost.cmpCalls, ghost.lookups, ghost.lookedUp, ghost.lastJSON, ghost.bodyOK, ghost.rdFailed, ghost.gotH, ghost.seqRejected, ghost.seqChecked
+//@   modifies c.stripped, ghost.inPos, ghost.nwrites, ghost.written, ghost.md5acc, ghost.gauge, ghost.armed, ghost.dead, ghost.reads, ghost.handled, ghost.replies, ghost.closed, ghost.sync, ghost.hcalls, ghost.authorStatus, ghost.authenPass, ghost.acctStatus, ghost.sinkWrites, ghost.sinkAtReply, ghost.scopeArg, ghost.cmpOK, ghost.cmpCalls, ghost.lookups, ghost.lookedUp, ghost.lastJSON, ghost.bodyOK, ghost.rdFailed, ghost.gotH, ghost.seqRejected, ghost.seqChecked
 //@   ensures[C07,C17] ghost.closed == old(ghost.closed) + 1
 //@   ensures[C07] ghost.handled - old(ghost.handled) <= ghost.reads - old(ghost.reads)
 //@   ensures[C07] ghost.replies - old(ghost.replies) == ghost.handled - old(ghost.handled)
@@ -798,7 +806,7 @@ package tacquito
 //@ func (s *Server) serve(ctx context.Context, conn net.Conn)
 //@   ghostinc spawned
 //@   ensures[C18] true
-//@   requires s != nil && s.loggerProvider != nil && s.SecretProvider != nil && ctx != nil && conn != nil && !s.proxy
+//@   requires s != nil && s.loggerProvider != nil && s.SecretProvider != nil && ctx != nil && conn != nil
 //@   requires[C05] ghost.sync == 1
 //@   modifies s.waitGroup.active, ghost.inPos, ghost.nwrites, ghost.written, ghost.md5acc, ghost.gauge, ghost.armed, ghost.dead, ghost.reads, ghost.handled, ghost.replies, ghost.closed, ghost.wgDones, ghost.sync, ghost.hcalls, ghost.authorStatus, ghost.authenPass, ghost.acctStatus, ghost.sinkWrites, ghost.sinkAtReply, ghost.scopeArg, ghost.cmpOK, ghost.cmpCalls, ghost.lookups, ghost.lookedUp, ghost.lastJSON, ghost.bodyOK, ghost.rdFailed, ghost.gotH, ghost.seqRejected, ghost.seqChecked, ghost.admitted, ghost.pgets, ghost.admits
 //@   ensures[C17,C20] ghost.wgDones == old(ghost.wgDones) + 1
@@ -810,7 +818,7 @@ package tacquito
 //@   before[C13] Server.handle : ghost.admitted == 1 && arg2 != nil && arg2.secret == secret && arg2.Conn == conn && arg3 == handler
 
 //@ func (s *Server) Serve(ctx context.Context, listener DeadlineListener) (err error)
-//@   requires s != nil && s.loggerProvider != nil && s.SecretProvider != nil && ctx != nil && listener != nil && !s.proxy
+//@   requires s != nil && s.loggerProvider != nil && s.SecretProvider != nil && ctx != nil && listener != nil
 //@   modifies s.waitGroup.active, ghost.gauge, ghost.wgAdds, ghost.spawned, ghost.lclosed, ghost.waited, ghost.sync
 //@   ensures[C17] ghost.lclosed == old(ghost.lclosed) + 1 && ghost.waited == old(ghost.waited) + 1
 //@   ensures[C17] ghost.wgAdds - old(ghost.wgAdds) == ghost.spawned - old(ghost.spawned)
